@@ -11,6 +11,7 @@ import Mahotas.Proofs.C16Rc
 import Mahotas.Proofs.C16Zeros
 import Mahotas.Proofs.C16Round
 import Mahotas.Proofs.C16Degenerate
+import Mahotas.Proofs.C16RcRound
 import Mahotas.Proofs.C05Binary64
 open Mahotas Mahotas.C16 Mahotas.C05
 
@@ -330,6 +331,71 @@ theorem C16_otsu_margin_explicit (hist : List Nat) :
       (loOf hist) (lastNonzero hist)
     linarith
 
+/-- **rc in rounded (binary64) arithmetic follows the stopping rule on the rounded midpoints.** For
+ANY `Rounding` (binary64 `rne53` included), every image with an occupied bin, at most 2^53 bins,
+pixels and first moment: the model of `rc` run in rounded arithmetic returns the single level when only
+one is occupied, otherwise `m̂(ts)` for the first `ts ∈ [lo, hi)` with `m̂(ts) ≤ ts + 1` (or
+`ts = hi − 1`), where `m̂(t) = rcMidR` is the midpoint as the loop body computes it — four roundings
+applied to exact integer sums — and every `m̂(t)` is within `4·2^-53` RELATIVE of the exact midpoint
+`m(t)` (no accumulation: each midpoint is computed afresh). -/
+theorem C16_rc_rounded_rule {rnd : ℚ → ℚ} (hr : Rounding rnd) (img : List Nat) (ignoreZeros : Bool)
+    (hne : ∃ v ∈ histOf img ignoreZeros, v ≠ 0)
+    (hlen : (histOf img ignoreZeros).length ≤ 2 ^ 53)
+    (hN : nBOf (histOf img ignoreZeros) ((histOf img ignoreZeros).length - 1) ≤ 2 ^ 53)
+    (hF : sBOf (histOf img ignoreZeros) ((histOf img ignoreZeros).length - 1) ≤ 2 ^ 53) :
+    let hist := histOf img ignoreZeros
+    let r := Rd.val rnd (rcGen (α := Rd rnd) (rdCast rnd) hist)
+    let lo := loOf hist
+    let hi := lastNonzero hist
+    (lo = hi → r = (hi : ℚ)) ∧
+    (lo < hi → ∃ ts, lo ≤ ts ∧ ts < hi ∧ r = rcMidR rnd hist ts ∧
+      (rcMidR rnd hist ts ≤ (ts : ℚ) + 1 ∨ ts + 1 = hi) ∧
+      ∀ t, lo ≤ t → t < ts → (t : ℚ) + 1 < rcMidR rnd hist t) ∧
+    (∀ t, |rcMidR rnd hist t - rcMid hist t| ≤ 4 * u53 * rcMid hist t) := by
+  intro hist r lo hi
+  have h := rcGenR_spec hr hist hne hlen hN hF
+  exact ⟨h.1, h.2, fun t => rcMidR_err hr hist t⟩
+
+/-- **The guarded comparison of `rc` in the check is sound.** Same hypotheses, at most 2^20 grey
+levels. If every comparison `m(t) ≤ t + 1` that the EXACT rule makes (all `t` from `lo` up to and
+including the exact stopping level) is decided with a margin above `1e-9` — the check's "judged"
+cases: its margin test is `min_t |m(t) − (t+1)| > 1e-9·max(1,|exact|)` — then the value computed in
+rounded arithmetic stops at the same level and differs from the exact one by at most
+`4·2^-53·exact ≤ 1e-12·exact`, the tolerance the check applies. Contrapositive: a binary64 result
+outside the tolerance is only possible when the margin is below `1e-9` ("near-tie, not judged"). -/
+theorem C16_rc_rounded_close {rnd : ℚ → ℚ} (hr : Rounding rnd) (img : List Nat) (ignoreZeros : Bool)
+    (hne : ∃ v ∈ histOf img ignoreZeros, v ≠ 0)
+    (hlen : (histOf img ignoreZeros).length ≤ 2 ^ 20)
+    (hN : nBOf (histOf img ignoreZeros) ((histOf img ignoreZeros).length - 1) ≤ 2 ^ 53)
+    (hF : sBOf (histOf img ignoreZeros) ((histOf img ignoreZeros).length - 1) ≤ 2 ^ 53)
+    (hmargin : ∀ t, loOf (histOf img ignoreZeros) ≤ t → t < lastNonzero (histOf img ignoreZeros) →
+      (∀ s, loOf (histOf img ignoreZeros) ≤ s → s < t → (s : ℚ) + 1 < rcMid (histOf img ignoreZeros) s) →
+      1 / 10 ^ 9 < |rcMid (histOf img ignoreZeros) t - ((t : ℚ) + 1)|) :
+    let hist := histOf img ignoreZeros
+    let r := rcGen ratCast hist
+    let rr := Rd.val rnd (rcGen (α := Rd rnd) (rdCast rnd) hist)
+    |rr - r| ≤ 4 * u53 * r ∧ 4 * u53 * r ≤ r / 10 ^ 12 ∧ 0 ≤ r := by
+  intro hist r rr
+  have hhn := hi_lt_length hist hne
+  have hlen' : hist.length ≤ 2 ^ 20 := hlen
+  have hr0 : 0 ≤ r := by
+    have := (rcGen_main hist hne).2.2.1
+    exact le_trans (by positivity) this
+  have hclose := rcGenR_close hr hist hne (le_trans hlen (by norm_num)) hN hF (fun t h1 h2 h3 => by
+    have hb := (rcMid_bounds hist hne h1 h2).2
+    have ht : (t : ℚ) ≤ (lastNonzero hist : ℚ) := by exact_mod_cast (show t ≤ lastNonzero hist by omega)
+    have hh : (lastNonzero hist : ℚ) ≤ 2 ^ 20 := by
+      have : lastNonzero hist ≤ 2 ^ 20 := by omega
+      exact_mod_cast this
+    have hm := hmargin t h1 h2 h3
+    refine lt_of_le_of_lt ?_ hm
+    have : rcMid hist t ≤ 2 ^ 20 := by linarith
+    unfold u53
+    nlinarith)
+  refine ⟨hclose, ?_, hr0⟩
+  unfold u53
+  nlinarith
+
 /-- **otsu on degenerate images, every arithmetic instance.** If every pixel — every NON-ZERO pixel
 when zeros are ignored — has the same level `v` (constant images, all-zero images with either
 setting, zeros plus one other level with `ignore_zeros`, one-pixel images, the empty pixel list) the
@@ -401,3 +467,8 @@ example : otsuImg floatCast [7, 7, 7] false = 0 ∧ otsuImg ratCast [0, 0, 5, 5]
   ⟨C16_otsu_single_level _ _ _ 7 (by simp), C16_otsu_single_level _ _ _ 5 (by simp)⟩
 example : rcImg ratCast [0, 0, 5, 5] true = 5 :=
   C16_rc_single_level ratCast [0, 0, 5, 5] true 5 (by simp) (by simp) (by simp)
+example : (histOf [5, 2, 2, 7] false).length ≤ 2 ^ 20 ∧
+    ∀ t, loOf (histOf [5, 2, 2, 7] false) ≤ t → t < lastNonzero (histOf [5, 2, 2, 7] false) → t < 8 := by
+  refine ⟨by decide, fun t _ h => ?_⟩
+  have : lastNonzero (histOf [5, 2, 2, 7] false) = 7 := by decide
+  omega
